@@ -81,7 +81,7 @@ def cli_args(sc: Scenario, rpath, qpath, opath, mode, cpus=2, rids=None, qids=No
 
 
 def run_real(sc: Scenario, mode, workdir, serial=True, cpus=2, rids=None, qids=None, tag="o", extensions=None,
-             files=None):
+             files=None, keep_existing=False):
     """returns dict: files {0: [lines], 1: …}, seeds (list of records), error (class name or None)"""
     import src.workflow_coordinator as wc
     from src.program import Program
@@ -95,7 +95,7 @@ def run_real(sc: Scenario, mode, workdir, serial=True, cpus=2, rids=None, qids=N
         rpath, qpath = files
     opath = os.path.join(workdir, f"{tag}_{mode}.xmap")
     seedpath = os.path.join(workdir, f"{tag}_{mode}.seeds")
-    for p in (seedpath, opath):
+    for p in ((seedpath,) if keep_existing else (seedpath, opath)):
         if os.path.exists(p):
             os.remove(p)
     argv = cli_args(sc, rpath, qpath, opath, mode if mode != "single" else "best", cpus, rids, qids)
